@@ -382,6 +382,16 @@ impl BigInt
             return Err(());
         }
 
+        // The result is built bit by bit
+        if (left - right) as u64 > BIGINT_MAX_BITS
+        {
+            report.error_span(
+                "value is out of supported range",
+                span);
+            
+            return Err(());
+        }
+
         Ok(self.slice(left, right))
     }
     
